@@ -7,6 +7,7 @@ package compiler
 
 import (
 	"fmt"
+	"go/ast"
 	"go/token"
 	"go/types"
 	"io"
@@ -323,6 +324,10 @@ func WritePkgCode(pkg *Archive, dceSelection map[*Decl]struct{}, gls linkname.Go
 				continue // The symbol is not affected by a go:linkname directive.
 			}
 			lines = append(lines, fmt.Sprintf("\t\t\t%s = $linknames[%q];\n", d.RefExpr, impl.String()))
+			if _, _, isMethod := d.LinkingName.IsMethod(); !isMethod && ast.IsExported(d.LinkingName.Name) {
+				// An exported function is also reachable through the package object.
+				lines = append(lines, fmt.Sprintf("\t\t\t$pkg.%s = %s;\n", encodeIdent(d.LinkingName.Name), d.RefExpr))
+			}
 		}
 		if len(lines) > 0 {
 			if _, err := writeF(w, minify, "\t\t$pkg.$initLinknames = function() {\n%s\t\t};\n", strings.Join(lines, "")); err != nil {
